@@ -161,6 +161,13 @@ def run(ctx: Ctx):
                                                            dict(release_time=-240, mult=1, X=5.0, Y=5.0, Z=1.0)]))
     cases.append(dict(k=-2, rev=False, nsteps=3, start=0, stop=180, continuous=False, freq=60, lonlat=False, extras=[], pvar_time=False,
                       use_names=False, has_mult=True, rows=[dict(release_time=180, mult=1, X=3.0, Y=3.0, Z=1.0)]))
+    # runs of more than a day (1500 steps of a minute): releases a day and more after the start, in both directions, discrete and continuous
+    for k_, (rev_, cont_) in enumerate([(False, False), (True, False), (False, True)]):
+        sg_ = -1 if rev_ else 1
+        cases.append(dict(k=-10 - k_, rev=rev_, nsteps=1500, start=0, stop=sg_ * 1500 * DT, continuous=cont_, freq=21600, lonlat=False, extras=[], pvar_time=False,
+                          use_names=False, has_mult=True,
+                          rows=[dict(release_time=0, mult=1, X=3.0, Y=3.0, Z=1.0), dict(release_time=sg_ * 3600, mult=2, X=4.0, Y=4.0, Z=1.0),
+                                dict(release_time=sg_ * (86400 + 120), mult=3, X=5.0, Y=5.0, Z=1.0), dict(release_time=sg_ * (86400 + 3600), mult=1, X=6.0, Y=5.0, Z=1.0)]))
     got = pmap(run_case, cases, warm=False)
     want = driver([request(c) for c in cases])
     for c, g, w in zip(cases, got, want):
